@@ -7,7 +7,7 @@ from typing import List, Optional
 from .. import rx
 from ..collect import callee_is, run_paths
 from ..common import calls_in, construct, where
-from ..flow import Value, show, subterms
+from ..flow import Value, show, strparts, subterms
 from ..fold import Folder, NotConst
 from ..loader import AnalysisError, ClassInfo, FuncInfo, Program, walk_shallow
 from ..report import Report
@@ -33,9 +33,15 @@ def run(p: Program, rep: Report, tier: str) -> None:
     if fn is None:
         raise AnalysisError("build_bytes_from_sse vanished")
     rep.analysed(fn.fq)
-    # typed dict says data is str
-    ty = p.module("baize.typing").constants.get("ServerSentEvent")
-    if ty is None or '"data": str' not in ast.unparse(ty).replace("'", '"'):
+    # typed dict says data is str (functional or class syntax)
+    tmod = p.module("baize.typing")
+    ty = tmod.constants.get("ServerSentEvent")
+    declared = ty is not None and '"data": str' in ast.unparse(ty).replace("'", '"')
+    if not declared:
+        tcls = tmod.classes.get("ServerSentEvent")
+        if tcls is not None:
+            declared = any(isinstance(n, ast.AnnAssign) and isinstance(n.target, ast.Name) and n.target.id == "data" and ast.unparse(n.annotation) == "str" for n in tcls.node.body)
+    if not declared:
         rep.undecide("R19.1", "ServerSentEvent no longer declares data: str")
     paths, col, it = run_paths(p, fn)
     rep.cfg_paths += len(paths)
@@ -43,76 +49,137 @@ def run(p: Program, rep: Report, tier: str) -> None:
     without = [pa for pa in paths if pa.exit == "return" and pa not in with_data]
     if not with_data:
         rep.undecide("R19.1", "no path of build_bytes_from_sse handles the data field")
-    for pa in with_data:
-        v = pa.value
-        comps = [t for t in subterms(v) if t[0] == "comp"]
-        data_comp = None
-        for c in comps:
-            elt = c[2]
-            if any(t[0] == "fstr" and t[1] and t[1][0] == ("const", "data: ") for t in subterms(elt)):
-                data_comp = c
-        if data_comp is None:
-            rep.violation("R19.2", construct(fn, text="data lines"), where(fn), "no 'data: <line>' lines are produced for the data field")
-            continue
-        elt, itv = data_comp[2], data_comp[3]
-        # ---- R19.1 the splitter
-        okline = None
-        if itv[0] == "call" and itv[1][0] == "attr" and itv[1][2] == "splitlines":
+
+    def is_data(t: Value) -> bool:
+        return (t[0] == "sub" and t[2] == ("const", "data")) or \
+            (t[0] == "call" and t[1][0] == "attr" and t[1][2] in ("pop", "get") and bool(t[2]) and t[2][0] == ("const", "data"))
+
+    def has_data(t: Value) -> bool:
+        return any(is_data(s) for s in subterms(t))
+
+    def splitter_kind(t: Value) -> Optional[str]:
+        if t[0] != "call":
+            return None
+        if t[1] == ("ext", "re.split"):
+            return "re.split"
+        if t[1][0] == "attr" and t[1][2] in ("split", "splitlines"):
+            return t[1][2]
+        return None
+
+    def compiled_pattern(recv: Value) -> Optional[str]:
+        """pattern of a module-level `NAME = re.compile(<foldable pattern>)` (no flags)"""
+        for t in subterms(recv):
+            if t[0] == "global":
+                modname, _, name = t[1].partition(":")
+                try:
+                    m_ = p.module(modname)
+                except Exception:
+                    continue
+                c_ = m_.constants.get(name)
+                if isinstance(c_, ast.Call) and ast.unparse(c_.func) in ("re.compile", "compile") and len(c_.args) == 1 and not c_.keywords:
+                    try:
+                        v_ = F.fold(m_, c_.args[0])
+                    except NotConst:
+                        return None
+                    return v_ if isinstance(v_, str) else None
+        if recv[0] == "call" and recv[1] == ("ext", "re.compile") and len(recv[2]) == 1 and recv[2][0][0] == "const" and isinstance(recv[2][0][1], str):
+            return recv[2][0][1]
+        return None
+
+    def judge_pattern(pat: str, how: str) -> None:
+        try:
+            a, b, st = rx.compare(pat, LINE_BREAKS_REF)
+        except rx.Unsupported as e:
+            rep.undecide("R19.1", f"line-break pattern: {e}")
+            return
+        if a is None and b is None:
+            rep.ok("R19.1", f"data split with {how}({pat!r}): language is exactly {{CRLF, CR, LF}}", st)
+        else:
+            w = a if a is not None else b
+            rep.violation("R19.1", construct(fn, text=f"re.split({pat!r})"), where(fn),
+                          f"the line-break pattern {pat!r} does not denote exactly CR, LF, CRLF (witness {rx.show(w)})")
+
+    def judge_splitter(itv: Value) -> None:
+        kind = splitter_kind(itv)
+        if kind == "splitlines":
             recv = itv[1][1]
             if any(t[0] == "call" and t[1][0] == "attr" and t[1][2] == "encode" for t in subterms(recv)):
-                okline = True  # bytes.splitlines splits on CR, LF, CRLF only
                 rep.ok("R19.1", "data split with bytes.splitlines() after encoding")
             else:
-                okline = False
                 rep.violation("R19.1", construct(fn, text="event.pop('data').splitlines()"), where(fn),
                               "the data text is split with str.splitlines(), which also breaks at VT, FF, FS, GS, RS, NEL, U+2028 and U+2029: "
                               "a payload containing one of them arrives with an injected line break (e.g. JSON with U+2028)")
-        elif itv[0] == "call" and itv[1] == ("ext", "re.split") and len(itv[2]) >= 2:
+        elif kind == "re.split" and len(itv[2]) >= 2:
             pat = itv[2][0]
             if pat[0] != "const" or not isinstance(pat[1], str):
                 rep.undecide("R19.1", f"re.split pattern is not a constant: {show(pat)}")
+            elif len(itv[2]) > 2 or itv[3]:
+                rep.undecide("R19.1", f"re.split with maxsplit/flags: {show(itv)[:80]}")
             else:
-                try:
-                    a, b, st = rx.compare(pat[1], LINE_BREAKS_REF)
-                except rx.Unsupported as e:
-                    rep.undecide("R19.1", f"line-break pattern: {e}")
-                    a = b = None
-                    st = None
-                if st is not None:
-                    if a is None and b is None:
-                        okline = True
-                        rep.ok("R19.1", f"data split with re.split({pat[1]!r}): language is exactly {{CRLF, CR, LF}}", st)
-                    else:
-                        okline = False
-                        w = a if a is not None else b
-                        rep.violation("R19.1", construct(fn, text=f"re.split({pat[1]!r})"), where(fn),
-                                      f"the line-break pattern {pat[1]!r} does not denote exactly CR, LF, CRLF (witness {rx.show(w)})")
-                if itv[2][1][0] != "call" or "pop" not in show(itv[2][1]) and "data" not in show(itv[2][1]):
-                    pass
-        elif itv[0] == "call" and itv[1][0] == "attr" and itv[1][2] == "split" and itv[2] == (("const", "\n"),):
-            chain = show(itv[1][1])
-            if ".replace('\\r\\n', '\\n')" in chain and ".replace('\\r', '\\n')" in chain and chain.index("'\\r\\n'") < chain.rindex("replace('\\r', '\\n')"):
-                okline = True
+                judge_pattern(pat[1], "re.split")
+        elif kind == "split" and itv[2] == (("const", "\n"),):
+            chain_ = show(itv[1][1])
+            if ".replace('\\r\\n', '\\n')" in chain_ and ".replace('\\r', '\\n')" in chain_ and chain_.index("'\\r\\n'") < chain_.rindex("replace('\\r', '\\n')"):
                 rep.ok("R19.1", "data split with replace(CRLF->LF).replace(CR->LF).split(LF)")
             else:
-                okline = False
                 rep.violation("R19.1", construct(fn, text=f"{show(itv)[:80]}"), where(fn), "data is split on LF only: CR / CRLF inside the data are sent raw and end the line early at the client")
+        elif kind == "split" and len(itv[2]) == 1 and not itv[3] and not has_data(itv[1][1]) and compiled_pattern(itv[1][1]) is not None:
+            judge_pattern(compiled_pattern(itv[1][1]), "compiled pattern .split")
         else:
             rep.undecide("R19.1", f"line splitter in an idiom outside the table: {show(itv)[:100]}")
-        # the thing that is split must be the event's data
-        if not any(t[0] == "call" and t[1][0] == "attr" and t[1][2] in ("pop", "get") and t[2] and t[2][0] == ("const", "data") for t in subterms(itv)) and \
-                not any(t[0] == "sub" and t[2] == ("const", "data") for t in subterms(itv)):
+
+    def text_of(el: Value) -> Optional[List[Value]]:
+        """pieces of `<text>.encode(charset)`; None when the element is not that"""
+        if el[0] == "call" and el[1][0] == "attr" and el[1][2] == "encode" and el[2] == (("param", "charset"),) and not el[3]:
+            return strparts(el[1][1])
+        return None
+
+    for pa in with_data:
+        v = pa.value
+        # ---- R19.1 the splitter: every call through which the event's data passes on this path
+        cands = [t for t in subterms(v) if splitter_kind(t) and has_data(t)]
+        cands += [("call", e.a, e.b, e.c) for e in pa.events if e.kind == "call" and splitter_kind(("call", e.a, e.b, e.c)) and has_data(("call", e.a, e.b, e.c))]
+        outer = []
+        for c in cands:
+            if c not in outer and not any(c is not o and c in list(subterms(o)) for o in cands if o != c):
+                outer.append(c)
+        if not outer:
+            if any(is_data(t) for t in subterms(v)) or any(e.kind == "call" and any(has_data(a) for a in (e.b or ())) for e in pa.events):
+                rep.violation("R19.1", construct(fn, text="data not split into lines"), where(fn), "the event's data reaches the block without being split at CR, LF, CRLF: a multi-line payload is sent as one `data:` line followed by raw lines")
+            else:
+                rep.undecide("R19.1", "no recognisable use of the event's data on the path that has it")
+        for c in outer:
+            judge_splitter(c)
+        # ---- R19.2 shape of the data lines
+        comps = [t for t in subterms(v) if t[0] == "comp"]
+        data_comp = None
+        for c in comps:
+            parts = text_of(c[2])
+            if parts and parts[0][0] == "const" and isinstance(parts[0][1], str) and parts[0][1].startswith("data"):
+                data_comp = c
+        okj = v[0] == "call" and v[1][0] == "attr" and v[1][2] == "join"
+        if data_comp is None:
+            if okj and any(t[0] == "const" and t[1] in ("data: ", "data:", b"data: ", "data") for t in subterms(v)):
+                rep.violation("R19.2", construct(fn, text="data lines"), where(fn), "no 'data: <line>' lines are produced for the data field")
+            elif okj and not any(has_data(t) for t in [v]):
+                rep.violation("R19.2", construct(fn, text="data lines"), where(fn), "no 'data: <line>' lines are produced for the data field")
+            else:
+                rep.undecide("R19.2", f"the data lines are built in an idiom outside the table: return {show(v)[:80]}")
+            continue
+        elt, itv = data_comp[2], data_comp[3]
+        if not (splitter_kind(itv) and has_data(itv)):
             rep.violation("R19.1", construct(fn, text=f"{show(itv)[:80]}"), where(fn), "the text that is split into data lines is not the event's data field")
-        # ---- R19.2 shape
-        enc_ok = elt[0] == "call" and elt[1][0] == "attr" and elt[1][2] == "encode" and elt[2] == (("param", "charset"),) and elt[1][1][0] == "fstr" \
-            and len(elt[1][1][1]) == 2 and elt[1][1][1][0] == ("const", "data: ") and elt[1][1][1][1][0] == "elem"
-        if enc_ok:
-            rep.ok("R19.2", "each data line is f'data: {line}'.encode(charset)")
+        parts = text_of(elt)
+        if parts is not None and len(parts) == 2 and parts[0] == ("const", "data: ") and parts[1][0] == "elem":
+            rep.ok("R19.2", "each data line is ('data: ' + line).encode(charset)")
         else:
             rep.violation("R19.2", construct(fn, text=f"data line {show(elt)[:80]}"), where(fn), "a data line is not exactly 'data: ' + line encoded with the response charset")
     for pa in with_data + without:
         v = pa.value
-        okj = v[0] == "call" and v[1] == ("attr", ("const", b"\n"), "join") and len(v[2]) == 1
+        if not (v[0] == "call" and v[1][0] == "attr" and v[1][2] == "join"):
+            rep.undecide("R19.2", f"the block is not built by a join: return {show(v)[:80]}")
+            continue
+        okj = v[1] == ("attr", ("const", b"\n"), "join") and len(v[2]) == 1
         if not okj:
             rep.violation("R19.2", construct(fn, text=f"return {show(v)[:80]}"), where(fn), "the block is not the lines joined with b'\\n'")
             continue
@@ -131,8 +198,8 @@ def run(p: Program, rep: Report, tier: str) -> None:
             # (f"{k}: {v}".encode(charset) for k, v in <pairs of the event other than data>)
             cmpv = ch[2][0]
             el = cmpv[2]
-            shape = el[0] == "call" and el[1][0] == "attr" and el[1][2] == "encode" and el[2] == (("param", "charset"),) and el[1][1][0] == "fstr" and len(el[1][1][1]) == 3 \
-                and el[1][1][1][1] == ("const", ": ")
+            parts = text_of(el)
+            shape = parts is not None and len(parts) == 3 and parts[1] == ("const", ": ") and parts[0][0] != "const" and parts[2][0] != "const"
             if shape:
                 rep.ok("R19.2", "each field line is f'{k}: {v}'.encode(charset) for the event's pairs other than data")
             else:
@@ -210,16 +277,24 @@ def run(p: Program, rep: Report, tier: str) -> None:
         if rs is None or init is None:
             raise AnalysisError(f"{side} SendEventResponse.render_stream/__init__ vanished")
         rep.analysed(rs.fq, init.fq)
-        ys = [n for n in walk_shallow(rs.node) if isinstance(n, ast.Yield) and isinstance(n.value, ast.Constant) and isinstance(n.value.value, bytes)]
+        ys = []
+        for n in walk_shallow(rs.node):
+            if isinstance(n, ast.Yield) and n.value is not None and isinstance(n.value, (ast.Constant, ast.Name, ast.Attribute, ast.BinOp)):
+                try:
+                    fv = F.fold(rs.module, n.value)
+                except NotConst:
+                    continue
+                if isinstance(fv, bytes):
+                    ys.append((n, fv))
         if len(ys) != 1:
             rep.undecide("R19.3", f"{side}: {len(ys)} constant ping yields")
         else:
-            b = ys[0].value.value
+            b = ys[0][1]
             pings[side] = b
             if b.startswith(b":") and b.endswith(b"\n\n") and b.count(b"\n") == 2 and b"\r" not in b:
                 rep.ok("R19.3", f"{side}: ping {b!r} is one comment line followed by a blank line")
             else:
-                rep.violation("R19.3", construct(rs, text=f"ping {b!r}"), where(rs, ys[0]), f"{side}: the keep-alive ping {b!r} is not a ':' comment line terminated by a blank line (an EventSource would dispatch or mis-parse it)")
+                rep.violation("R19.3", construct(rs, text=f"ping {b!r}"), where(rs, ys[0][0]), f"{side}: the keep-alive ping {b!r} is not a ':' comment line terminated by a blank line (an EventSource would dispatch or mis-parse it)")
         # events go through build_bytes_from_sse(event, self.charset)
         bb = [c for c in calls_in(rs) if p.resolve_call(rs, c) is fn]
         if bb and len(bb[0].args) == 2 and ast.unparse(bb[0].args[1]) == "self.charset":
